@@ -155,8 +155,11 @@ func (m *ModuleInstance) ensureResourcesClosed(ctx context.Context) (err error) 
 		m.Sys = nil
 	}
 
-	if mem := m.MemoryInstance; mem != nil {
+	if mem := m.MemoryInstance; mem != nil && !m.memoryReleased {
 		// The memory may be shared with other open instances through imports.
+		// Note: this function can run more than once (FailIfClosed after an
+		// asynchronous close), so the release is recorded.
+		m.memoryReleased = true
 		mem.releaseUser()
 	}
 
